@@ -28,7 +28,8 @@ type CaseC04 struct {
 	Base    int        `json:"base"`  // index into the honest entries (mod len); -1: a fresh entry nobody has seen
 	Field   string     `json:"field"`
 	Form    string     `json:"form"`  // A: head, claimed hash kept | B: head, hash recomputed | C: next of a valid colluding head | D: refs of a valid colluding head | E: next of a head that passes the pre-check but is refused at join
-	Route   string     `json:"route"` // sync | topic | direct
+	Route   string     `json:"route"` // sync | topic | direct | loadmore | snapqueue
+	Restart bool       `json:"restart,omitempty"` // afterwards the replica restarts and loads its log
 }
 
 func genC04(rt *rapid.T) CaseC04 {
@@ -39,7 +40,8 @@ func genC04(rt *rapid.T) CaseC04 {
 		Base:    rapid.IntRange(-1, 12).Draw(rt, "base"),
 		Field:   rapid.SampledFrom(c04Fields).Draw(rt, "field"),
 		Form:    rapid.SampledFrom([]string{"A", "B", "C", "D", "E"}).Draw(rt, "form"),
-		Route:   rapid.SampledFrom([]string{"sync", "topic", "direct"}).Draw(rt, "route"),
+		Route:   rapid.SampledFrom([]string{"sync", "sync", "topic", "topic", "direct", "direct", "loadmore", "snapqueue"}).Draw(rt, "route"),
+		Restart: rapid.Bool().Draw(rt, "restart"),
 	}
 	c.Hist = genHist(rt, c.Authors, 6)
 	return c
@@ -113,7 +115,7 @@ func execC04(c CaseC04) *Outcome {
 			return fail("harness: craft: %v", err)
 		}
 		base = e
-	} else if c.Base < 0 || (strings.HasPrefix(c.Field, "identity.") && c.Form != "A") {
+	} else if c.Base < 0 || (strings.HasPrefix(c.Field, "identity.") && (c.Form != "A" || c.Route == "loadmore" || c.Route == "snapqueue")) {
 		// (identity mutations with a recomputed hash still verify - the signature does not cover the
 		// identity block - so they are built on an entry nobody else holds: a second entry with the
 		// same (time, writer) pair would break the uniqueness assumption of the order model)
@@ -201,6 +203,11 @@ func execC04(c CaseC04) *Outcome {
 		// content unchanged; "hash": the claimed address is someone else's
 	}
 	form := c.Form
+	if (c.Route == "loadmore" || c.Route == "snapqueue") && form == "A" && c.Field != "hash" {
+		// these routes carry addresses only: an entry under a claimed address it does not hash to cannot travel
+		// by them (the address is fetched, which yields the untouched original)
+		form = "B"
+	}
 	claimed := base.Hash
 	switch {
 	case c.Field == "hash":
@@ -328,6 +335,16 @@ func execC04(c CaseC04) *Outcome {
 		}
 	}
 	reached := len(cl.W.Peers[env.V].GetLog) > fetchedBefore
+	if c.Restart {
+		if err := env.victimRestartClean(ctx); err != nil {
+			if err == world.ErrInconclusive {
+				o.Inconclusive = true
+				return o
+			}
+			return fail("%s, delivered by %s: %v", desc, c.Route, err)
+		}
+		o.Labels = append(o.Labels, "restart-after")
+	}
 	o.NonTrivial = bad && reached
 	if bad {
 		o.Labels = append(o.Labels, "bad:"+c.Field+"/"+form)
